@@ -188,6 +188,10 @@ func (n *Node) setupExec(ctx context.Context) (executor.Executor, error) {
 		stdout = io.MultiWriter(n.logWriter, n.stdoutWriter)
 	}
 
+	// Without a stderr file the standard error goes where the standard
+	// output is logged, but not into the captured output variable.
+	stderr := stdout
+
 	if n.data.Step.Output != "" {
 		var err error
 		if n.outputReader, n.outputWriter, err = os.Pipe(); err != nil {
@@ -200,7 +204,7 @@ func (n *Node) setupExec(ctx context.Context) (executor.Executor, error) {
 	if n.stderrWriter != nil {
 		cmd.SetStderr(n.stderrWriter)
 	} else {
-		cmd.SetStderr(stdout)
+		cmd.SetStderr(stderr)
 	}
 
 	return cmd, nil
